@@ -116,7 +116,7 @@ package transport
 //gvc:  opt frame args
 //gvc:  opt callees abstract
 //gvc:  sink PeekLine requires room: arg0.#bufsize >= 65520
-//gvc:  sink sendReportStatus#3 requires [C39] unpacked: arg1 == nil
+//gvc:  sink sendReportStatus requires [C39] unpacked: calls("updateReferences") == 0 || arg1 == nil
 //gvc:end
 
 //gvc:func UploadPack
